@@ -318,6 +318,119 @@ def regnums(regs):
     return out
 
 
+def run_dec(dec, s, ilen=4):
+    """execute one decoded instruction, or a rendered sequence [(decoded, ilen), ...] in order"""
+    if isinstance(dec, list):
+        for d1, l1 in dec:
+            RV.exec1(d1, s, l1)
+    else:
+        RV.exec1(dec, s, ilen)
+
+
+def dec_repr(dec):
+    return [[d1[0], d1[1]] for d1, _l in dec] if isinstance(dec, list) else [dec[0], dec[1]]
+
+
+def decode_any(bs):
+    """-> (decoded base instruction, length, implicit registers) or None"""
+    if len(bs) == 4:
+        d = RV.decode(list(bs))
+        return (d, 4, set()) if d and d[0] in FMT_ROLES else None
+    if len(bs) == 2:
+        from props import c08
+        d16 = c08.rvc_decode16(list(bs))
+        d = RV.expand16((d16[0], list(d16[1]))) if d16 else None
+        return (d, 2, RVC_IMPLICIT.get(d16[0], set())) if d and d[0] in FMT_ROLES else None
+    return None
+
+
+def pseudo_classes():
+    """riscv / riscv:rvc instruction classes that define render() (pseudo instructions expanded after selection);
+    found by introspection of the riscv instruction modules (the rvc pseudo classes are not registered in an isa)"""
+    import importlib
+    from ppci.arch.generic_instructions import ArtificialInstruction
+    out, seen = [], set()
+    for mod in ('instructions', 'rvc_instructions', 'rvf_instructions', 'rvfx_instructions'):
+        try:
+            m = importlib.import_module('ppci.arch.riscv.' + mod)
+        except Exception:   # noqa: BLE001
+            continue
+        for c in vars(m).values():
+            if not (isinstance(c, type) and issubclass(c, ArtificialInstruction)) or id(c) in seen:
+                continue
+            seen.add(id(c))
+            if getattr(c, 'syntax', None) is None or not any('render' in vars(k) for k in c.__mro__ if k.__module__.startswith('ppci.arch.riscv')):
+                continue
+            out.append(c)
+    return out
+
+
+def pseudo_stage(ctx):
+    """declared used/defined registers of every pseudo instruction against the semantics of the sequence it renders to"""
+    from ppci.arch.registers import Register
+    from ppci.arch.encoding import Instruction
+    from ppci.arch.generic_instructions import ArtificialInstruction
+    from ppci.arch.riscv import registers as Rg
+    rng = ctx.rng
+    regsets = [(8, 8, 8), (8, 9, 10), (9, 8, 9), (15, 14, 15), (8, 20, 9), (20, 8, 21), (5, 6, 7), (10, 10, 11), (12, 13, 12)]
+    imms = [0, 1, 15, 16, 31, 2047, 2048, -1, -2048, -2049, 100000]
+    stats, n_eval = {}, 0
+    for cls in pseudo_classes():
+        fas = cls.syntax.formal_arguments
+        kinds = []
+        for fa in fas:
+            c = fa._cls
+            kinds.append('reg' if isinstance(c, type) and issubclass(c, Register) else 'imm' if c is int else 'str' if c is str else None)
+        if None in kinds or not all((k != 'reg') or issubclass(fa._cls, Rg.RiscvRegister) for k, fa in zip(kinds, fas)):
+            stats[cls.__name__] = 'operand kinds not supported'
+            continue
+        checked = 0
+        hit = False
+        for rs in regsets:
+            for imm in (imms if 'imm' in kinds else [0]):
+                it = iter(rs)
+                args = [Rg.get_register(next(it)) if k == 'reg' else imm if k == 'imm' else 'L' for k in kinds]
+                try:
+                    ins = cls(*args)
+                    seq = []
+
+                    def add(x, depth=0):
+                        if isinstance(x, ArtificialInstruction) and depth < 4:
+                            for y in x.render():
+                                add(y, depth + 1)
+                        elif isinstance(x, Instruction) and getattr(type(x), 'tokens', None):
+                            seq.append(x)
+                    add(ins)
+                    dec, implicit, bts = [], set(), []
+                    for x in seq:
+                        bs, _rel = relocated_bytes(x)
+                        d = decode_any(bs)
+                        if d is None:
+                            raise ValueError('undecodable %s' % type(x).__name__)
+                        dec.append((d[0], d[1]))
+                        implicit |= d[2]
+                        bts.append(bs.hex())
+                    uses = regnums(ins.used_registers)
+                    defs = regnums(ins.defined_registers) | regnums(ins.clobbers)
+                except Exception:   # noqa: BLE001  (operands the pseudo instruction or its expansion cannot encode)
+                    continue
+                if not dec:
+                    continue
+                checked += 1
+                ops = [a.num if hasattr(a, 'num') else a for a in args]
+                k, hit = exec_checks(ctx, rng, dec, uses | implicit, defs | implicit, 3,
+                                     dict(cls=cls.__name__, printed='%s%r renders to %s' % (cls.__name__, ops, [type(x).__name__ for x in seq]),
+                                          bytes=' '.join(bts), ops=ops, where='pseudo instruction render()'), pc=INS_ADDR)
+                n_eval += k
+                if hit:
+                    break
+            if hit:
+                break
+        stats[cls.__name__] = checked
+    ctx.cov['stages']['pseudo_render'] = {'classes': stats, 'executions': n_eval}
+    ctx.cov['evaluations'] += n_eval
+
+
 def exec_checks(ctx, rng, dec, uses, defs, n_st, meta, pc=None, ilen=4):
     """frame + non-interference of one decoded instruction against declared uses/defs on n_st random states.
     meta: dict(cls, printed, bytes, ops, where).  Returns (evaluations, violation reported?)"""
@@ -329,13 +442,13 @@ def exec_checks(ctx, rng, dec, uses, defs, n_st, meta, pc=None, ilen=4):
         s0.mem = HashedMem(rng.getrandbits(20))
         s1 = s0.copy()
         s1.mem = HashedMem(s0.mem.seed)
-        RV.exec1(dec, s1, ilen)
+        run_dec(dec, s1, ilen)
         n_eval += 1
         state = {'regs': s0.regs, 'pc': s0.pc, 'mem': 'byte(a) = (a*2654435761 + %d*40503 + (a>>7)) & 255' % s0.mem.seed}
         undeclared = [r for r in range(32) if s0.regs[r] != s1.regs[r] and r not in defs]
         if undeclared:
             ctx.violation({'fn': 'defined_registers', 'class': meta['cls'], 'args': meta['ops'], 'printed': meta['printed'],
-                           'bytes': meta['bytes'], 'decoded': [dec[0], dec[1]], 'where': meta['where'],
+                           'bytes': meta['bytes'], 'decoded': dec_repr(dec), 'where': meta['where'],
                            'key': 'frame:%s' % meta['cls'],
                            'what': 'executing the instruction changes register(s) x%s which it does not declare as written'
                                    % ',x'.join(map(str, undeclared)),
@@ -344,14 +457,15 @@ def exec_checks(ctx, rng, dec, uses, defs, n_st, meta, pc=None, ilen=4):
                            'how_to_replay': replay_cmd(meta['cls'], meta['ops'])})
             return n_eval, True
         cand = [r for r in range(1, 32) if r not in uses]
-        named = [r for r in dec[1][:3] if isinstance(r, int) and 0 < r < 32 and r not in uses]
+        named = [r for d1 in (dec if isinstance(dec, list) else [(dec, ilen)]) for r in d1[0][1][:3]
+                 if isinstance(r, int) and 0 < r < 32 and r not in uses]
         r = rng.choice(named) if named and rng.random() < 0.8 else rng.choice(cand)
         s2 = s0.copy()
         s2.mem = HashedMem(s0.mem.seed)
         s2.regs[r] = RV.u32(s0.regs[r] ^ rng.choice([1, 0x80000000, 0xffffffff, rng.getrandbits(32) | 1]))
         s3 = s2.copy()
         s3.mem = HashedMem(s0.mem.seed)
-        RV.exec1(dec, s3, ilen)
+        run_dec(dec, s3, ilen)
         n_eval += 1
         diff = ['x%d' % q for q in range(32)
                 if s1.regs[q] != s3.regs[q] and not (s1.regs[q] == s0.regs[q] and s3.regs[q] == s2.regs[q])]
@@ -363,7 +477,7 @@ def exec_checks(ctx, rng, dec, uses, defs, n_st, meta, pc=None, ilen=4):
             def obs(s, q):
                 return s.pc if q == 'pc' else (s.regs[int(q[1:])] if q[0] == 'x' else sorted(dict(s.mem).items()))
             ctx.violation({'fn': 'used_registers', 'class': meta['cls'], 'args': meta['ops'], 'printed': meta['printed'],
-                           'bytes': meta['bytes'], 'decoded': [dec[0], dec[1]], 'where': meta['where'], 'key': 'reads:%s' % meta['cls'],
+                           'bytes': meta['bytes'], 'decoded': dec_repr(dec), 'where': meta['where'], 'key': 'reads:%s' % meta['cls'],
                            'what': 'two states that differ only in x%d (not in used_registers %s) give different %s'
                                    % (r, sorted(uses), ','.join(diff)),
                            'expected': 'results independent of undeclared register x%d' % r,
@@ -627,6 +741,10 @@ def run(ctx):
         instance_stage(ctx, info)
     except Exception as ex:   # noqa: BLE001
         ctx.failed_stages.append(('instances', 'instance stage crashed: %r' % (ex,)))
+    try:
+        pseudo_stage(ctx)
+    except Exception as ex:   # noqa: BLE001
+        ctx.failed_stages.append(('pseudo', 'pseudo-instruction stage crashed: %r' % (ex,)))
     for n, why in info['nbad']:
         d = info['bad'][n]
         ctx.violation({'fn': 'Operand flags', 'class': d['cls'], 'args': [n], 'key': 'flags:%s' % d['cls'],
@@ -652,7 +770,9 @@ def run(ctx):
 
 
 MANIFEST = {
-    'text': 'UPDATE: unconditional for the 53 covered base classes (c07_rv_frame_reads_full uses C08\'s unbounded reference '
+    'text': 'ALSO (oracle only, no theorem): every riscv/rvc pseudo instruction that defines render() (Li, La, Labelrel, the rvc '
+            '*v variants, CBl/CBlr ...) is instantiated on register/immediate combinations hitting each render branch, rendered, and '
+            'the rendered sequence executed by the interpreter against the PSEUDO instruction\'s declared used/defined registers. UPDATE: unconditional for the 53 covered base classes (c07_rv_frame_reads_full uses C08\'s unbounded reference '
             'agreement); RV32C compressed forms are executed by an expansion semantics (ISA-side theorems proved, class flags checked '
             'by oracle only) which found c.sub/c.xor/c.or/c.and/c.addi declaring rd write-only (known finding + fix diff). '
             'DETAIL: PARTIAL (other): RISC-V RV32I/M base instruction classes only. The Operand(read=, write=) flags of every riscv class '
